@@ -1111,7 +1111,11 @@ func checkMapDeterminism(r *Reporter, p *Prog) {
 		}
 		isSort := func(n ast.Node) bool {
 			cl, ok := n.(*ast.CallExpr)
-			return ok && (exprKey(cl.Fun) == "sort.Slice" || exprKey(cl.Fun) == "sort.Sort") && len(cl.Args) >= 1 && exprKey(cl.Args[0]) == "data"
+			if !ok {
+				return false
+			}
+			sd := recogniseSort(infoS, cl)
+			return sd != nil && exprKey(sd.Target) == "data"
 		}
 		writes := f.Find(func(n ast.Node) bool {
 			cl, ok := n.(*ast.CallExpr)
@@ -1127,22 +1131,24 @@ func checkMapDeterminism(r *Reporter, p *Prog) {
 		}
 		// comparator
 		cmpOK := false
+		// every sort of the data (any library spelling) is ascending by bytes.Compare on the elements
+		nSorts := 0
+		cmpOK = true
 		ast.Inspect(f.Body, func(n ast.Node) bool {
-			if cl, ok := n.(*ast.CallExpr); ok && isSort(cl) && len(cl.Args) == 2 {
-				if lit, ok := cl.Args[1].(*ast.FuncLit); ok && len(lit.Body.List) == 1 {
-					if rs, ok := lit.Body.List[0].(*ast.ReturnStmt); ok && exprKey(rs.Results[0]) == "(bytes.Compare(data[i],data[j])<0)" {
-						cmpOK = true
-					}
+			if cl, ok := n.(*ast.CallExpr); ok && isSort(cl) {
+				nSorts++
+				if sd := recogniseSort(infoS, cl); !sd.OK || sd.Kind != "bytes" || sd.Key != "@" || sd.Desc {
+					cmpOK = false
 				}
 			}
 			return true
 		})
+		cmpOK = cmpOK && nSorts > 0
 		if bad || !cmpOK {
 			r.Fail("determinism/sort-before-write", pkgSer+".Serializer.WriteSliceOfByteSlices", f.P.posStr(f.Body.Pos()), "whenever both ordering bits are set the elements must be sorted ascending by bytes.Compare before the write loop", wit...)
 		} else {
 			r.Pass("determinism/sort-before-write", pkgSer+".Serializer.WriteSliceOfByteSlices", f.P.posStr(f.Body.Pos()), "sort.Slice(data, bytes.Compare < 0) on the both-bits edge precedes the element writes")
 		}
-		_ = infoS
 	}
 }
 
